@@ -224,13 +224,22 @@ def is_missing(v):
 
 
 def key_code(v):
-    if isinstance(v, (bool, np.bool_)):
+    """Integer code of a key value: small integers stand for themselves; any other key (string, non-integral
+    float, large integer) gets a stable code above 10^9 (TLC integers are 32 bit)."""
+    import zlib
+    if isinstance(v, (bool, np.bool_)) or v is None:
         return -1
-    if isinstance(v, (int, np.integer)):
+    if isinstance(v, (int, np.integer)) and abs(int(v)) < 10 ** 9:
         return int(v)
-    if isinstance(v, (float, np.floating)) and not math.isnan(v) and float(v).is_integer():
-        return int(v)
-    return -1
+    if isinstance(v, (float, np.floating)):
+        if math.isnan(v):
+            return -1
+        if float(v).is_integer() and abs(v) < 10 ** 9:
+            return int(v)
+        return 10 ** 9 + zlib.crc32(repr(float(v)).encode()) % 1000000007
+    if isinstance(v, str):
+        return 10 ** 9 + zlib.crc32(('s:' + v).encode()) % 1000000007
+    return 10 ** 9 + zlib.crc32(repr(v).encode()) % 1000000007
 
 
 def score_code(v, meas):
